@@ -179,7 +179,7 @@ def check_with_info(case):
     import_biobalm()
     from biodivine_aeon import BooleanNetwork
     from biobalm.petri_net_translation import network_to_petrinet, restrict_petrinet_to_subspace
-    from biobalm.trappist_core import compute_fixed_point_reduced_STG, trappist
+    from biobalm.trappist_core import compute_fixed_point_reduced_STG
 
     full = oracle.Net.from_bnet(case["bnet"])
     info = net_info(full)
